@@ -136,6 +136,9 @@ def random_history(rng, hid, steps, n_aircraft, with_time=True, with_serde=True)
                 p["lat"], p["lon"] = move(p["lat"], p["lon"], p["brg"], rng.choice((0.0, 0.3, 2.0, 5.0)))
             elif k < 0.85:
                 p["lat"], p["lon"] = move(p["lat"], p["lon"], rng.uniform(0, 360), rng.choice((99.0, 99.99, 100.01, 101.0, 150.0, 400.0)))
+            # the altitude changes too - also while the position does not (a hovering or purely climbing target)
+            if p["alt"] is not None and rng.random() < 0.3:
+                p["alt"] = max(0, min(50175, p["alt"] + rng.choice((-2000, -100, 25, 100, 2000))))
             odd = rng.randrange(2)
             raw = (rng.randrange(P17), rng.randrange(P17)) if k >= 0.95 else None
             out.append(frame_step(f_pos(rng, a, p["lat"], p["lon"], odd, p["alt"], df=p["df"], raw=raw)))
@@ -160,6 +163,23 @@ def random_history(rng, hid, steps, n_aircraft, with_time=True, with_serde=True)
         elif with_serde:
             out.append({"op": "serde"})
     return {"id": hid, "rx": [round(rx[0] * 1e6), round(rx[1] * 1e6)], "range_m": rng_m, "steps": out}
+
+
+def neighbour_history(rng, hid):
+    """addresses that differ in one bit from a common base (all ones, all zeros, a random one), each heard a few times,
+    interleaved: any key derived from the address that is not injective merges two of them into one record"""
+    base = rng.choice((0xFFFFFF, 0x000000, rng.randrange(1 << 24)))
+    addrs = [a for a in [base] + [base ^ (1 << k) for k in range(24)] if a != 0]
+    rx = RECEIVERS[0]
+    order = [a for a in addrs for _ in range(2)]
+    rng.shuffle(order)
+    out = []
+    for a in order:
+        if rng.random() < 0.6:
+            out.append(frame_step(f_ident(rng, a, "N%05X" % (a & 0xFFFFF), df=rng.choice((17, 18)))))
+        else:
+            out.append(frame_step(f_other_me(rng, a, df=17)))
+    return {"id": hid, "rx": [round(rx[0] * 1e6), round(rx[1] * 1e6)], "range_m": RANGES_M[0], "steps": out}
 
 
 def threshold_history(rng, hid):
@@ -375,6 +395,8 @@ def run(prop, tier, seed, rep, std=True):
         hists.append(random_history(rng, f"r{i}", rng.choice((60, 200, 400)), rng.choice((1, 2, 5, 12))))
     for i in range(40 if tier == "quick" else 1000):
         hists.append(threshold_history(rng, f"t{i}"))
+    for i in range(4 if tier == "quick" else 60):
+        hists.append(neighbour_history(rng, f"n{i}"))
     groups = record(hx, hists)
     events = [e for g in groups for e in g]
     verdicts, st, tr = core.validate_events("Trace_Tracker", events, prop, shards=core.MAX_JVMS,
